@@ -26,10 +26,11 @@ func formInsn(f int) mars.Insn {
 
 // StepCase is one single-warrior lock-step case: a whole core, a PC and k cycles.
 type StepCase struct {
-	Mode       int // simulator mode (0..2): must not influence execution
-	Len        int // configured maximum warrior length: the simulator must ignore it
-	Bystanders int // 1: a never-started warrior stands in front of the one under test and a living helper behind it
-	HelperAt   int // cell of the helper (JMP $0)
+	Mode       int  // simulator mode (0..2): must not influence execution
+	Len        int  // configured maximum warrior length: the simulator must ignore it
+	Bystanders int  // 1: a never-started warrior stands in front of the one under test and a living helper behind it
+	HelperAt   int  // cell of the helper (JMP $0)
+	Queried    bool `json:",omitempty"` // the warrior's accessors (listing, name, length, queue...) are called between AddWarrior and SpawnWarrior: they must be pure
 	M, R, W, P int
 	PC         int
 	K          int
@@ -274,6 +275,20 @@ func newStepSim(sc *StepCase, core []mars.Insn, pc int) (g.Simulator, g.Warrior,
 	if err != nil {
 		return nil, nil, err
 	}
+	if sc.Queried {
+		// accessors are queries: whatever a caller asks before the start must not change what is loaded
+		w.LoadCode()
+		w.Name()
+		w.Author()
+		w.Length()
+		w.Alive()
+		w.Queue()
+		w.NextPC()
+		s.GetWarrior(wi)
+		s.GetMem(0)
+		s.WarriorCount()
+		s.WarriorLivingCount()
+	}
 	if err := s.SpawnWarrior(wi, 0); err != nil {
 		return nil, nil, err
 	}
@@ -513,6 +528,9 @@ func randModeLen(sc *StepCase, r *Rng) {
 	}
 	if r.Chance(1, 3) {
 		sc.Len = []int{1, sc.M / 4, sc.M / 2, sc.M}[r.Intn(4)]
+	}
+	if r.Chance(1, 5) && sc.M <= 4096 {
+		sc.Queried = true
 	}
 	if r.Chance(1, 6) && sc.M <= 4096 {
 		sc.Bystanders = 1
